@@ -212,7 +212,8 @@ def equal(a, b, path='', diffs=None):
             equal(x, y, f'{path}[{i}]', diffs)
         return
     if isinstance(a, dict):
-        if list(a.keys()) != list(b.keys()):
+        # (two dictionaries with the same items are equal whatever the order of their keys)
+        if set(a.keys()) != set(b.keys()) or len(a) != len(b):
             diffs.append(f'{path}: keys {list(a)!r} vs {list(b)!r}')
             return
         for k in a:
